@@ -47,7 +47,8 @@ def gen_keys(rng, n=None, algs=None, heavy=0.12):
         keys['k%d' % i] = {'alg': alg, 'uids': uids, 'subkeys': subkeys, 'revoked': rng.random() < 0.2,
                            'revoked_subkeys': [0] if subkeys and rng.random() < 0.2 else [],
                            'usage': rng.choice(['CS', 'CS', 'CS', 'C']) if subkeys and subkeys[0]['usage'] == 'S' else 'CS',
-                           'created_us': 1_400_000_000_000_000 + rng.choice([0, 1, 86400 * 400]) * 1_000_000}
+                           'created_us': 1_400_000_000_000_000 + rng.choice([0, 1, 86400 * 400]) * 1_000_000,
+                           'reframed': rng.random() < 0.2}
     return keys
 
 
@@ -183,6 +184,10 @@ class SigWorld(object):
             k = world.build_key(keys_cfg[name], label + name)
             if any(isinstance(u, dict) and u.get('extra_subpackets') for u in keys_cfg[name].get('uids', [])):
                 k = _with_extra_uattr_subpackets(pgpy, k, ctx)
+            if keys_cfg[name].get('reframed'):
+                # the key as another producer frames it: every packet under a five-octet new-format length, kept so in memory
+                k = pgpy.PGPKey.from_blob(b''.join(encode_packet(p.tag, p.body, 'new', 5) for p in split_packets(bytes(k))))[0]
+                ctx.probe('key_loaded_from_five_octet_lengths')
             # key states a verifier meets in the wild: revoked primaries / subkeys (advisory in PGPy)
             try:
                 subs = list(k.subkeys.values())
